@@ -97,7 +97,59 @@ func (f *Fam) Exec(op string) (obs string, fails []common.Failure) {
 		f.checkParams(before, after, w, obs, fail)
 		f.invariants(after, op, fail)
 	}
+	f.checkReplica(w, fail)
 	return
+}
+
+// checkReplica: C01. The second instance got the same request (and, unlike the primary, restarts, another
+// pruning configuration and CheckTx/Query traffic of its own): the consensus-relevant responses must be equal,
+// a halt of one must be a halt of the other, and at every commit the whole application state must be equal.
+func (f *Fam) checkReplica(w []string, fail func(string, string, string)) {
+	if f.rep == nil || (w[0] == "tx" && w[1] != "deliver") {
+		return
+	}
+	a, b := f.lastResp, f.repResp
+	if f.dead && w[0] != "award" && w[0] != "burn" {
+		a = "halt"
+	}
+	if strings.HasPrefix(b, "halt:") {
+		b = "halt"
+	}
+	if a == "halt" && b == "dead" || f.rep.dead && f.dead && a == "halt" {
+		return // both halted earlier
+	}
+	f.extra["c01:responses-compared"]++
+	if a != b {
+		sig := "C01:response-differs"
+		if w[0] == "commit" {
+			sig = "C01:apphash-differs"
+		}
+		if f.rep.restarts > 0 {
+			sig += ":after-restart"
+		}
+		fail("replica-agrees", sig, fmt.Sprintf("%s: the primary instance answered %q, the replica (pruning %d/%d, %d restarts, %d private CheckTx/Query requests) answered %q",
+			clip(strings.Join(w, " ")), clip(a), f.rep.pruning.KeepRecent(), f.rep.pruning.KeepEvery(), f.rep.restarts, f.rep.extras, clip(b)))
+		f.rep = nil // diverged: nothing further is comparable
+		return
+	}
+	if w[0] == "commit" && f.rep.wantRestart {
+		f.rep.wantRestart = false
+		if e := f.rep.restart(); e != "" {
+			fail("replica-agrees", "C01:reopen-failed", "the replica could not be reopened from its database after commit: "+e)
+			f.rep = nil
+			return
+		}
+	}
+	if w[0] == "commit" && !f.dead && !f.rep.dead {
+		f.extra["c01:states-compared"]++
+		if f.rep.restarts > 0 {
+			f.extra["c01:states-compared-after-a-restart"]++
+		}
+		if x, y := f.app.Snap().String(), f.rep.app.Snap().String(); x != y {
+			fail("replica-agrees", "C01:state-differs", fmt.Sprintf("after commit %d the committed states differ: primary %s / replica %s", f.height, clip(x), clip(y)))
+			f.rep = nil
+		}
+	}
 }
 
 func (f *Fam) Class(op, obs string) string {
